@@ -595,6 +595,8 @@ func main() {
 	e2()
 	e3()
 	e4()
+	e5()
+	res.Info["E5"] = "two endpoints discovered together: e1 answers with every bad outcome of the listing alphabet for 1, 5 and 7 rounds while e2 answers correctly but slowly, then e2 changes its listing: the catalogue must follow e2"
 	res.Info["E4"] = "SSE streams with one data line of 64 KiB .. 5 MiB (around the 1 MiB line buffer) first or after one chunk, followed by more than a megabyte of ordinary stream, on the translated streaming route and the proxy route, both engines: the exchange ends within 20 s and the next request is served"
 	res.Info["grid"] = map[string]any{"E1_targets": "every shipped listing parser, metrics extraction of every profile that enables it, TransformResponse, one streaming chunk",
 		"E1_deviations": "delete / duplicate / replace by {null, {}, [], \"\", -1, 1e999, \"\\ud800\", 300 x '['} / truncate, up to 2 (second level restricted in quick tier)", "E1_token_strings": "length <=4 (5 thorough) over 12 tokens",
